@@ -3,6 +3,8 @@
 //! Usage: vh <engine> <args...>; every engine writes a JSON report (see util::Report).
 mod util;
 mod sase;
+mod window;
+mod vplrun;
 
 fn main() {
     let args: Vec<String> = std::env::args().collect();
@@ -15,6 +17,9 @@ fn main() {
         "sase-replay" => sase::replay(rest),
         "sase-record" => sase::record(rest),
         "sase-kleene" => sase::kleene_record(rest),
+        "win-replay" => window::replay(rest),
+        "win-record" => window::record(rest),
+        "vpl-run" => vplrun::main(rest),
         other => {
             eprintln!("unknown engine {other}");
             std::process::exit(2);
